@@ -163,6 +163,10 @@ def registered_game(ctx, n: int):
 def run(ctx) -> None:
     rng = ctx.rng
     quick = ctx.tier == "quick"
+    # guaranteed minimum, independent of the time budget: two games from the registered SAM generators
+    for _ in range(2):
+        fam0, v0, e0 = registered_game(ctx, 4)
+        run_case(ctx, {"n": 4, "family": fam0, "values": v0, "exact": e0, "K": gen.random_knowledge_set(rng, 4)}, [0, 1, 2, "1", "10"])
     # exhaustive K for n = 3 (8 sets) on several games and n = 4 (1024 sets) on one game, r in {0,1,2,10}
     for fam in (["sam_int", "sam_float"] if quick else list(gen.SAM_FAMILIES)):
         values, exact = gen.sam_game(rng, 3, fam)
